@@ -104,7 +104,7 @@ def fingerprint(node, positions=True):
         items = []
         for k, v in sorted(vars(node).items()):
             if k == '_token_map':
-                tm = tuple(sorted((str(t), tuple(tuple(p) for p in ps)) for t, ps in dict(v).items() if ps)) \
+                tm = tuple(sorted((str(t), tuple(tuple(p) for p in ps)) for t, ps in dict(v).items())) \
                     if positions and isinstance(v, dict) else ()
                 items.append((k, tm))
             else:
